@@ -193,9 +193,10 @@ def O(k):
 
 
 class _CM:
-    def __init__(self, k, v):
+    def __init__(self, k, v, sup=False):
         self.k = k
         self.v = v
+        self.sup = sup
 
     def __enter__(self):
         LOG.append(["cm_enter", self.k])
@@ -203,13 +204,20 @@ class _CM:
 
     def __exit__(self, typ, exc, tb):
         LOG.append(["cm_exit", self.k, 0 if typ is None else 1])
-        return False
+        return self.sup and typ is not None and issubclass(typ, Exception)
 
 
 def CM(k):
     d = _take("E", k)
     LOG.append(["eval", k, d[2]])
     return _CM(k, d[2])
+
+
+def SCM(k):
+    """a context manager that swallows the exceptions raised in its block (contextlib.suppress)"""
+    d = _take("E", k)
+    LOG.append(["eval", k, d[2]])
+    return _CM(k, d[2], sup=True)
 
 
 def F(k, *args):
